@@ -5,7 +5,9 @@ dir="$1"; shift
 cd /verif || exit 2
 if [ -n "$(git -C /repo status --porcelain --untracked-files=no)" ]; then echo "MACHINERY: /repo has uncommitted changes"; exit 2; fi
 git -C /repo apply "$dir/patch.diff" || { echo "MACHINERY: patch does not apply"; exit 2; }
-trap 'git -C /repo apply -R "$dir/patch.diff"; git -C /repo status --porcelain --untracked-files=no' EXIT
+# undo the change however the script ends (a closed output pipe included)
+trap 'git -C /repo apply -R "$dir/patch.diff" 2>/dev/null || git -C /repo checkout -- .; git -C /repo status --porcelain --untracked-files=no' EXIT
+trap 'exit 129' HUP INT PIPE TERM
 for c in "$@"; do
     start=$(date +%s)
     VFSMC_EVIDENCE_DIR=/dev/shm/seed-evidence ./check "$c" quick > "/tmp/seed_$c.log" 2>&1
